@@ -6,7 +6,10 @@ package corr
 //	            ops: new size=S | add seq=Q | missing skip=K   -> prints `ok`/`err:size`, nothing, the list
 //	nackgen     public API: nack.GeneratorInterceptor inside a testing/synctest bubble
 //	            ops: cfg size=S skip=K max=M | bind ssrc=A nack=0|1 | unbind ssrc=A | rtp ssrc=A seq=Q |
-//	                 rtperr ssrc=A | rtpbad ssrc=A | tick | ticks n=N
+//	                 rtperr ssrc=A | rtpbad ssrc=A | tick | ticks n=N | failnext n=K
+//	            `failnext n=K`: the next K calls of the bound RTCP writer return an error (fault injection). A failing
+//	            Write has still been handed the packet, so it is recorded like any other: whatever the writer returns,
+//	            every stream with missing packets gets its NACK at every tick.
 //	            observable per tick: one line per TransportLayerNack reaching the bound RTCP writer,
 //	            `[at=i ]nack ssrc=A <pairs expanded, sorted>`, lines sorted by media SSRC; sender SSRC masked.
 
@@ -380,7 +383,7 @@ func c03GenNackgen(r *Rng, tier string, idx int) Case {
 		case 1:
 			return Case{Class: "malformed", Ops: []string{"tick", "bind ssrc=1 nack=1", "cfg size=64 skip=0 max=1", "rtp ssrc=1 seq=1",
 				"rtp ssrc=1 seq=70000", "rtp ssrc=1", "bind ssrc=1 nack=2", "bind ssrc=1 nack=1", "rtp ssrc=1 seq=1", "rtp ssrc=1 seq=3",
-				"frob", "tick x=1", "ticks n=0", "tick", "cfg size=64 skip=0 max=1", "unbind ssrc=9", "rtp ssrc=9 seq=1", "tick"}}
+				"frob", "tick x=1", "ticks n=0", "failnext n=0", "failnext", "failnext n=1 m=2", "failnext n=1", "tick", "cfg size=64 skip=0 max=1", "unbind ssrc=9", "rtp ssrc=9 seq=1", "tick"}}
 		default:
 			// long quiescent tail: a number missing for many ticks (counter behaviour, F-03)
 			max := r.Pick(1, 2, 3)
@@ -389,6 +392,9 @@ func c03GenNackgen(r *Rng, tier string, idx int) Case {
 				"rtp ssrc=7 seq=10", "rtp ssrc=7 seq=13", fmt.Sprintf("ticks n=%d", n), "rtp ssrc=7 seq=11", "tick", "tick",
 				"rtp ssrc=7 seq=16", fmt.Sprintf("ticks n=%d", r.Pick(2, 5, 70))}}
 		}
+	}
+	if idx%9 == 4 {
+		return c03GenWriteFail(r)
 	}
 	cl := c03Classes[idx%len(c03Classes)]
 	size := c03SizeFor(idx)
@@ -442,6 +448,9 @@ func c03GenNackgen(r *Rng, tier string, idx int) Case {
 		}
 		if budget > 0 && (r.Intn(every) == 0 || i == n-1) {
 			budget--
+			if r.Chance(1, 6) {
+				ops = append(ops, fmt.Sprintf("failnext n=%d", r.Pick(1, 1, 2, 3)))
+			}
 			if r.Chance(1, 8) {
 				ops = append(ops, fmt.Sprintf("ticks n=%d", r.Pick(2, 3, 4, 5)))
 			} else {
@@ -450,6 +459,50 @@ func c03GenNackgen(r *Rng, tier string, idx int) Case {
 		}
 	}
 	return Case{Class: cl, Ops: ops}
+}
+
+// c03GenWriteFail: several bound streams that all lose packets between ticks, a NACK limit, and an RTCP writer
+// that fails at drawn calls: the NACK of every stream must reach the writer at every tick whatever an earlier
+// Write of the same tick returned (streams are independent; the counters have been charged already).
+func c03GenWriteFail(r *Rng) Case {
+	size := r.Pick(64, 64, 128, 256, 512)
+	max := r.Pick(1, 1, 1, 2, 3, 0)
+	skip := r.Pick(0, 0, 0, 1, 2)
+	ops := []string{fmt.Sprintf("cfg size=%d skip=%d max=%d", size, skip, max)}
+	ns := r.Pick(2, 2, 3, 3, 4)
+	all := []int{1, 2, 5, 77, 1000, 65536, 4294967294, 4294967295}
+	ssrcs := []int{}
+	streams := map[int]*c03Stream{}
+	for len(ssrcs) < ns {
+		s := all[r.Intn(len(all))]
+		if streams[s] != nil {
+			continue
+		}
+		ssrcs = append(ssrcs, s)
+		streams[s] = newC03Stream(r, size, []string{"bernoulli", "burst", "mixed", "bernoulli"}[r.Intn(4)])
+		ops = append(ops, fmt.Sprintf("bind ssrc=%d nack=1", s))
+	}
+	nt := r.Range(6, 30)
+	for t := 0; t < nt; t++ {
+		// every stream gets traffic (and with it fresh losses) before the tick
+		for _, s := range ssrcs {
+			k := r.Range(2, 8)
+			for i := 0; i < k; i++ {
+				for _, x := range streams[s].step() {
+					ops = append(ops, fmt.Sprintf("rtp ssrc=%d seq=%d", s, x&0xFFFF))
+				}
+			}
+		}
+		if r.Chance(2, 3) {
+			ops = append(ops, fmt.Sprintf("failnext n=%d", r.Pick(1, 1, 1, 2, ns)))
+		}
+		if r.Chance(1, 10) {
+			ops = append(ops, fmt.Sprintf("ticks n=%d", r.Pick(2, 3)))
+		} else {
+			ops = append(ops, "tick")
+		}
+	}
+	return Case{Class: "writefail", Ops: ops}
 }
 
 type c03Nack struct {
@@ -471,6 +524,7 @@ func c03RunNackgen(t *testing.T, ops []string, o *Out) {
 			pending []byte
 			pendErr error
 			buf     = make([]byte, 1500)
+			failN   int // the next failN writer calls fail
 		)
 		defer func() {
 			if icpt != nil {
@@ -492,6 +546,10 @@ func c03RunNackgen(t *testing.T, ops []string, o *Out) {
 				}
 				sort.Ints(list)
 				got = append(got, c03Nack{at: int(time.Since(t0) / c03Interval), ssrc: n.MediaSSRC, list: list})
+			}
+			if failN > 0 {
+				failN--
+				return 0, errors.New("transient transport error")
 			}
 			return 0, nil
 		})
@@ -596,6 +654,8 @@ func c03RunNackgen(t *testing.T, ops []string, o *Out) {
 					pending = []byte{0x80, 0x60, 0x00}
 				}
 				_, _, _ = rd.Read(buf, nil)
+			case name == "failnext" && c03Has(m, 1000000, "n") && m["n"] >= 1:
+				failN = m["n"]
 			case name == "tick" && len(m) == 0:
 				time.Sleep(c03Interval)
 				synctest.Wait()
